@@ -124,7 +124,7 @@ def check(spec, stats=None):
 @st.composite
 def strategy(draw, all_indices=False):
     r = draw(run_spec(families=ALL_FAMILIES, n_max=6, jac_modes=("callable", "callable", "callable", None, "2-point", "3-point"),
-                      maxiter=(1, 12), maxfun=(4, 60), small_ls=draw(st.booleans()), ftols=(0.0, 1e-12), gtols=(1e-8, 1e-5)))
+                      maxiter=(1, 12), maxfun=(4, 60), small_ls=draw(st.booleans()), ftols=(0.0, 1e-12), gtols=(1e-8, 1e-5), extras=True))
     r["scaler"] = draw(st.sampled_from([0.5, 2.0, 1.0, 3.7]))
     r["ftarget"] = {"kind": "callable", "rel": draw(st.sampled_from([0.5, 0.9, 1.5, 3.0]))}
     r["gtol_callable"] = True
